@@ -176,6 +176,14 @@ def gen_tasks(tier, seed):
                     for fac in ([2.0, 1.0], [1.0, 3.0]):
                         tasks.append({**base, "node_flow": {v: 3 * x + 1 for v, x in nf.items()}, "node_length": nlen,
                                       "kwargs": {**kw, "length_attr": "length", "path_length_ranges": [[0, B], [B + 1, 1000]], "path_length_factors": fac}})
+                # deterministic variant: unit node lengths, values alternating 10 / 4 along a topological order (so that slack is needed),
+                # every boundary between the shortest true route length and the longest route length with connectors counted
+                topo = list(nx.topological_sort(G))
+                alt = {v: (10 if j % 2 == 0 else 4) for j, v in enumerate(topo)}
+                for B in (3, 4, 5, 6, 7):
+                    for fac in ([2.0, 1.0], [1.0, 3.0]):
+                        tasks.append({**base, "node_flow": alt, "node_length": {v: 1 for v in G.nodes()},
+                                      "kwargs": {**{a_: b_ for a_, b_ in kw.items() if a_ != "k"}, "k": 1, "length_attr": "length", "path_length_ranges": [[0, B], [B + 1, 1000]], "path_length_factors": fac}})
             if inner and cls == "MinFlowDecomp":
                 # paths may start / end at inner nodes: flow = routes of the enlarged route set (so a decomposition exists)
                 v, w = rng.choice(inner), rng.choice(inner)
